@@ -129,6 +129,7 @@ func (e *Exec) callBody(fn *ssa.Function, args []value) value {
 	for i, p := range fn.Params {
 		fr.env[p] = args[i]
 	}
+	e.lastFn = fn
 	return fr.run()
 }
 
